@@ -529,3 +529,6 @@ func dCtxParse(g *G) {
 		g.emit(mkCtxParse(c, s), "ctxparse")
 	}
 }
+
+// NonTrivial: a parse event whose string is not trivially rejected at the first byte, or any formatting event.
+func (e TEv) NonTrivial() bool { return e.Tk != "parse" || e.Ok || len(e.S) > 1 }
